@@ -1,5 +1,5 @@
 #!/bin/bash
-# usage: tools/regress.sh [streams]   (development helper)
+# usage: [REGRESS_FILTER=<regex>] tools/regress.sh [streams]   (development helper)
 # Re-runs every kept seeded change (expect: the check of the property it breaks exits 1
 # with a VIOLATION line) and every kept behaviour-preserving change (expect: exit 0)
 # against scratch worktrees; prints one line each and a summary. /repo is not touched.
@@ -30,6 +30,8 @@ one() { # kind name patch props...
   echo "$kind $name$r" > /tmp/rg/$name.res
   git -C /repo worktree remove --force $sv; rm -rf $out
 }
+# optional selection: REGRESS_FILTER is an extended regular expression on "<kind> <name>"
+if [ -n "${REGRESS_FILTER:-}" ]; then grep -E "$REGRESS_FILTER" $jobs > $jobs.sel; mv $jobs.sel $jobs; fi
 i=0
 while read kind name patch props; do
   i=$((i+1)); echo "$kind $name $patch $props" >> /tmp/rg/stream_$((i % streams)).txt
